@@ -1,12 +1,17 @@
 (* C02 — reading, re-writing and reading again is a fixpoint.  Statements only.
    PARTIAL: proved for the byte streams that are encodings of conforming documents (Model/Encode.v rtree: any nesting, any
-   payload bytes the declared type decodes — zero-padded or empty integers, 4-byte floats —, any size width, any subset of
-   masters of unknown size, closed by a following element or the end of input), with declared paths without global
-   placeholders; and for such documents cut on a tag boundary (C02_fixpoint_cut_partial: the masters open at the cut may
-   declare more bytes than are present — the end of the input closes them).  Streams the strict reader accepts only up to
-   an error, mid-document starts and global elements are covered by the correspondence run (read → write → read on mutated
-   and hand-crafted streams). *)
-From Ebml Require Import Base Tools Spec Writer Reader Pure Encode Proofs.Tactics Proofs.WriterProofs Proofs.PureProofs Proofs.RoundTrip Proofs.WriteEnc Proofs.Fixpoint Proofs.Partial Proofs.CutExists Proofs.Snapshots Proofs.FixpointCut.
+   payload bytes the declared type decodes — zero-padded or empty integers, 4-byte floats —, any size width), of two classes:
+   (1) declared paths without global placeholders, any subset of masters of unknown size, closed by a following element or
+   the end of input (C02_fixpoint_partial); such documents cut on a tag boundary (C02_fixpoint_cut_partial: the masters open
+   at the cut may declare more bytes than are present — the end of the input closes them);
+   (2) every master of known size, declared paths with GLOBAL PLACEHOLDERS allowed — a path only has to match the chain of
+   masters the element sits in —, global elements anywhere (C02_fixpoint_known_partial; start hypothesis [dstart] of
+   Proofs/RoundTripKnown.v).
+   For both classes one round reaches the fixpoint at the byte level: the re-encoding is idempotent (C02_canon_idempotent) and
+   re-writing the second read reproduces the bytes of the first re-write exactly (C02_rewrite_stable).
+   Streams the strict reader accepts only up to an error, mid-document starts, and global elements inside masters of unknown
+   size are covered by the correspondence run (read → write → read on mutated and hand-crafted streams). *)
+From Ebml Require Import Base Tools Spec Writer Reader Pure Encode Proofs.Tactics Proofs.WriterProofs Proofs.PureProofs Proofs.RoundTrip Proofs.RoundTripKnown Proofs.WriteEnc Proofs.WriteEncG Proofs.Fixpoint Proofs.FixpointKnown Proofs.Partial Proofs.CutExists Proofs.Snapshots Proofs.FixpointCut.
 
 (* [canon f]: the same tags in the writer's default encoding; [sized c t]: its sizes stay below 2^56-1 and the reader's limit.
    The writer accepts every tag the reader emitted (in particular everything the reader accepts as hierarchy-valid), emits the
@@ -159,3 +164,124 @@ Example C02_cut_ex_run :
   snd written = enc_forest (map canon (close_levels C02_cut_levels C02_cut_f)) /\
   map out_tag (p_run C02_cut_cfg (snd written) [RAll]) = map out_tag first.
 Proof. vm_compute. repeat split; try reflexivity. repeat constructor. Qed.
+
+(* ---- second class: every master of known size, declared paths with global placeholders.  [kconf c ids t]
+   (Proofs/RoundTripKnown.v): every element of t is declared with a path — placeholders allowed — that matches the chain of
+   masters it sits in, payloads decode, sizes fit their fields; [dstart c f]: the first element of the document declared with a
+   placeholder-free path is a top-level element.  The writer accepts every tag of the first read under default options, emits
+   the canonical encoding, and the second read yields the tags of the first. *)
+Theorem C02_fixpoint_known_partial : forall c f, strict c -> c_buffered c = [] -> c_emit_eof c = true -> Forall (kconf c []) f ->
+  dstart c f -> Forall (sized c) (map canon f) ->
+  let first := p_run c (enc_forest f) [RAll] in
+  let written := run_writer (c_sp c) (map default_write (run_tags first)) [] in
+  Forall (fun r => fst r = WOk) (fst written) /\
+  snd written = enc_forest (map canon f) /\
+  map out_tag (p_run c (snd written) [RAll]) = map out_tag first.
+Proof. exact read_write_read_known. Qed.
+
+(* the canonical re-encoding is idempotent: payloads and size widths depend on the values and their lengths only *)
+Theorem C02_canon_idempotent : forall t, canon (canon t) = canon t.
+Proof. exact canon_idem. Qed.
+
+(* a document of the first class is, after one round, in both classes (all its masters have a known size) *)
+Theorem C02_canon_both_classes : forall c f, Forall (conf c []) f -> Forall (sized c) (map canon f) ->
+  Forall (conf c []) (map canon f) /\ Forall (kconf c []) (map canon f) /\ dstart c (map canon f).
+Proof. exact canon_in_both_classes. Qed.
+
+(* one round reaches the fixpoint at the byte level, for both classes: the writer accepts the tags of the second read and
+   emits exactly the bytes it emitted for the tags of the first read *)
+Theorem C02_rewrite_stable : forall c f, strict c -> c_buffered c = [] -> c_emit_eof c = true ->
+  (Forall (conf c []) f \/ (Forall (kconf c []) f /\ dstart c f)) -> Forall (sized c) (map canon f) ->
+  let first := p_run c (enc_forest f) [RAll] in
+  let written := run_writer (c_sp c) (map default_write (run_tags first)) [] in
+  let second := p_run c (snd written) [RAll] in
+  let written2 := run_writer (c_sp c) (map default_write (run_tags second)) [] in
+  Forall (fun r => fst r = WOk) (fst written2) /\ snd written2 = snd written.
+Proof. exact rewrite_is_stable. Qed.
+
+(* Root = 129; Void = 236, a global element (1-): anywhere at depth >= 1; Rec = 131, a recursive master Root/(-): anywhere
+   below Root, itself included; Val = 16641, Root/(-)/Rec *)
+Definition C02k_sp : spec :=
+  [ {| e_id := 129; e_ty := DMaster; e_path := [] |};
+    {| e_id := 236; e_ty := DBinary; e_path := [PGlobal (Some 1) None] |};
+    {| e_id := 131; e_ty := DMaster; e_path := [PId 129; PGlobal None None] |};
+    {| e_id := 16641; e_ty := DUInt; e_path := [PId 129; PGlobal None None; PId 131] |} ].
+Definition C02k_cfg : cfg :=
+  {| c_sp := C02k_sp; c_allow_id := false; c_allow_hier := false; c_allow_over := false; c_max := Some 4000000000; c_buffered := [];
+     c_emit_eof := true |}.
+(* Root (8-byte size field) { Void (8-byte size field); Rec (8-byte size field) { Val 5 (zero-padded to 3 bytes, 8-byte size
+   field); Void [1;2] (2-byte size field); Rec (2-byte size field) { Val 300 (zero-padded) } } }: global elements at depths 1
+   and 2, the recursive master nested in itself *)
+Definition C02k_doc : list rtree :=
+  [ RNode 129 (Some 8%nat)
+      [ RLeaf 236 (VB [0]) [0] 8%nat;
+        RNode 131 (Some 8%nat)
+          [ RLeaf 16641 (VU 5) [0; 0; 5] 8%nat;
+            RLeaf 236 (VB [1; 2]) [1; 2] 2%nat;
+            RNode 131 (Some 2%nat) [ RLeaf 16641 (VU 300) [0; 1; 44] 1%nat ] ] ] ].
+
+Example C02k_ex_hyps : strict C02k_cfg /\ Forall (kconf C02k_cfg []) C02k_doc /\ dstart C02k_cfg C02k_doc /\
+  Forall (sized C02k_cfg) (map canon C02k_doc).
+Proof.
+  assert (I1 : idok 129) by (exists 1%nat, 1; repeat split; cbn; lia).
+  assert (I3 : idok 131) by (exists 1%nat, 3; repeat split; cbn; lia).
+  assert (I5 : idok 236) by (exists 1%nat, 108; repeat split; cbn; lia).
+  assert (I6 : idok 16641) by (exists 2%nat, 257; repeat split; cbn; lia).
+  assert (V : forall ids pl sl, path_matches [PGlobal (Some 1) None] ids = true -> (1 <= sl <= 8)%nat ->
+            N.of_nat (length pl) < 2 ^ (7 * N.of_nat sl) - 1 -> wf_bytes pl -> N.of_nat (length pl) <= 4000000000 ->
+            kconf C02k_cfg ids (RLeaf 236 (VB pl) pl sl)).
+  { intros ids pl sl Hp H1 H2 H3 H4. cbn [kconf]. split; [exact I5|]. split; [exact H1|]. split; [exact H2|]. split; [exact H3|].
+    split; [exists DBinary; split; [reflexivity|split; [discriminate|reflexivity]]|]. split; [exact Hp|exact H4]. }
+  assert (U : forall ids n pl sl, path_matches [PId 129; PGlobal None None; PId 131] ids = true -> (1 <= sl <= 8)%nat ->
+            N.of_nat (length pl) < 2 ^ (7 * N.of_nat sl) - 1 -> wf_bytes pl -> N.of_nat (length pl) <= 4000000000 ->
+            arr_to_u64 pl = Ok n -> kconf C02k_cfg ids (RLeaf 16641 (VU n) pl sl)).
+  { intros ids n pl sl Hp H1 H2 H3 H4 H5. cbn [kconf]. split; [exact I6|]. split; [exact H1|]. split; [exact H2|]. split; [exact H3|].
+    split; [exists DUInt; split; [reflexivity|split; [discriminate|exact H5]]|]. split; [exact Hp|exact H4]. }
+  assert (N : forall ids id sl cs, idok id -> (1 <= sl <= 8)%nat -> flen cs < 2 ^ (7 * N.of_nat sl) - 1 ->
+            get_type C02k_sp id = Some DMaster -> path_matches (get_path C02k_sp id) ids = true -> flen cs <= 4000000000 ->
+            Forall (kconf C02k_cfg (ids ++ [id])) cs -> kconf C02k_cfg ids (RNode id (Some sl) cs)).
+  { intros ids id sl cs H1 H2 H3 H4 H5 H6 H7. apply kconf_node. split; [exact H1|]. split; [exists sl; split; [reflexivity|split; assumption]|].
+    split; [exact H4|]. split; [exact H5|]. split; [exact H6|exact H7]. }
+  split; [repeat split|]. split; [|split].
+  - constructor; [|constructor].
+    apply N; [assumption|lia|vm_compute; reflexivity|reflexivity|reflexivity|vm_compute; discriminate|].
+    constructor; [apply V; [reflexivity|lia|vm_compute; reflexivity|repeat constructor; lia|vm_compute; discriminate]|].
+    constructor; [|constructor].
+    apply N; [assumption|lia|vm_compute; reflexivity|reflexivity|reflexivity|vm_compute; discriminate|].
+    constructor; [apply U; [reflexivity|lia|vm_compute; reflexivity|repeat constructor; lia|vm_compute; discriminate|reflexivity]|].
+    constructor; [apply V; [reflexivity|lia|vm_compute; reflexivity|repeat constructor; lia|vm_compute; discriminate]|].
+    constructor; [|constructor].
+    apply N; [assumption|lia|vm_compute; reflexivity|reflexivity|reflexivity|vm_compute; discriminate|].
+    constructor; [apply U; [reflexivity|lia|vm_compute; reflexivity|repeat constructor; lia|vm_compute; discriminate|reflexivity]|constructor].
+  - cbn [dstart C02k_doc]. left. reflexivity.
+  - constructor; [|constructor]. cbn [map C02k_doc]. rewrite canon_node. apply sized_node.
+    split; [vm_compute; reflexivity|]. split; [vm_compute; discriminate|].
+    cbn [map]. constructor; [split; [vm_compute; reflexivity|vm_compute; discriminate]|]. constructor; [|constructor].
+    rewrite canon_node. apply sized_node. split; [vm_compute; reflexivity|]. split; [vm_compute; discriminate|].
+    cbn [map]. constructor; [split; [vm_compute; reflexivity|vm_compute; discriminate]|].
+    constructor; [split; [vm_compute; reflexivity|vm_compute; discriminate]|]. constructor; [|constructor].
+    rewrite canon_node. apply sized_node. split; [vm_compute; reflexivity|]. split; [vm_compute; discriminate|].
+    cbn [map]. constructor; [split; [vm_compute; reflexivity|vm_compute; discriminate]|constructor].
+Qed.
+
+(* the 55 bytes of the document; the first read; the re-written document: 22 bytes, one-byte size fields, minimal integer
+   payloads, the global elements where they were; the second read yields the same tags; re-writing the second read gives the
+   same 22 bytes *)
+Example C02k_ex_run :
+  let input := enc_forest C02k_doc in
+  let first := p_run C02k_cfg input [RAll] in
+  let written := run_writer C02k_sp (map default_write (run_tags first)) [] in
+  let second := p_run C02k_cfg (snd written) [RAll] in
+  let written2 := run_writer C02k_sp (map default_write (run_tags second)) [] in
+  input = [129; 1; 0; 0; 0; 0; 0; 0; 46; 236; 1; 0; 0; 0; 0; 0; 0; 1; 0; 131; 1; 0; 0; 0; 0; 0; 0; 27;
+           65; 1; 1; 0; 0; 0; 0; 0; 0; 3; 0; 0; 5; 236; 64; 2; 1; 2; 131; 64; 6; 65; 1; 131; 0; 1; 44] /\
+  map out_tag first = [Some (TStart 129); Some (TElem 236 (VB [0])); Some (TStart 131); Some (TElem 16641 (VU 5));
+                       Some (TElem 236 (VB [1; 2])); Some (TStart 131); Some (TElem 16641 (VU 300)); Some (TEnd 131);
+                       Some (TEnd 131); Some (TEnd 129); None] /\
+  Forall (fun r => fst r = WOk) (fst written) /\
+  snd written = [129; 148; 236; 129; 0; 131; 143; 65; 1; 129; 5; 236; 130; 1; 2; 131; 133; 65; 1; 130; 1; 44] /\
+  snd written = enc_forest (map canon C02k_doc) /\
+  map out_tag second = map out_tag first /\
+  Forall (fun r => fst r = WOk) (fst written2) /\
+  snd written2 = snd written.
+Proof. vm_compute. repeat split; try reflexivity; repeat constructor. Qed.
